@@ -360,8 +360,8 @@ def _corelang_cases(tier):
 
 
 CLAUSES = [
-    Clause('shipped-languages', check_case, kind='exhaustive', enumerate=_corelang_cases, shards={'quick': 2, 'thorough': 2},
+    Clause('shipped-languages', check_case, kind='exhaustive', enumerate=_corelang_cases, shards={'quick': 2, 'thorough': 6},
            space='the two language specifications shipped under tests/testdata'),
-    Clause('wellformed', check_case, kind='random', strategy=wellformed_cases, budget={'quick': 4000, 'thorough': 40000}),
-    Clause('illformed', check_case, kind='random', strategy=illformed_cases, budget={'quick': 2500, 'thorough': 20000}),
+    Clause('wellformed', check_case, kind='random', strategy=wellformed_cases, budget={'quick': 4000, 'thorough': 120000}),
+    Clause('illformed', check_case, kind='random', strategy=illformed_cases, budget={'quick': 2500, 'thorough': 60000}),
 ]
